@@ -215,3 +215,14 @@ package lexer
 
 //@ func unexpectedToken
 //@ implements lexer.lexFn
+
+// The parser's view of the stream. Every clause is an assertion proved at the send sites of
+// (*Lexer).emit / (*Lexer).error (expOK, line-range, located) or a proved variant (strmLeft);
+// the hand-off itself is the sequentialisation assumption.
+//@ iface Tokeniser.NextToken
+//@ requires SInv() && !strmDone
+//@ modifies strmLeft, strmDone, strmExp, strmLastT
+//@ ensures SInv() && TokOK(result) && strmLastT == result.Type
+//@ ensures old(strmLeft) >= 1 && strmLeft == old(strmLeft) - 1
+//@ ensures strmDone == (result.Type == token.EOF || result.Type == token.ERROR)
+//@ ensures expOK(old(strmExp), result.Type) && strmExp == expNext(old(strmExp), result.Type)
